@@ -505,6 +505,122 @@ theorem to_indexed_lossless (i j : Img) (ag : Bool) (n : Nat)
           exact hr.symm
   · simp [hd] at h
 
+theorem colourOf_indexed_getD (p : List Rgba) (d k : Nat) :
+    colourOf (.indexed p) d [k] = entryPx (p.getD k blackEntry) := by
+  rw [colourOf_indexed, List.getD_eq_getElem?_getD]
+  cases p[k]? <;> rfl
+
+
+
+theorem entry_rgba (c : Rgba) : entryPx c = colourOf .rgba 8 [c.r.toNat, c.g.toNat, c.b.toNat, c.a.toNat] := by
+  simp [entryPx, colourOf, scaleTo16_8]
+theorem entry_rgb (c : Rgba) (h : c.a = 255) : entryPx c = colourOf (.rgb none) 8 [c.r.toNat, c.g.toNat, c.b.toNat] := by
+  simp [entryPx, colourOf, scaleTo16_8, h]
+theorem entry_ga (c : Rgba) (h : c.r = c.g ∧ c.g = c.b) : entryPx c = colourOf .grayAlpha 8 [c.b.toNat, c.a.toNat] := by
+  simp [entryPx, colourOf, scaleTo16_8, h.1, h.2]
+theorem entry_g (c : Rgba) (h : c.r = c.g ∧ c.g = c.b) (h2 : c.a = 255) : entryPx c = colourOf (.gray none) 8 [c.b.toNat] := by
+  simp [entryPx, colourOf, scaleTo16_8, h.1, h.2, h2]
+
+/-- **Palette → channels is lossless for the whole image** (no alpha optimisation): every pixel of
+    the result means what its palette entry meant, for any palette and any indices (an index beyond
+    the palette means opaque black on both sides, as in the code). -/
+theorem indexed_to_channels_lossless (i j : Img) (ag : Bool)
+    (h : indexedToChannels i ag false = some j) : samePicture i j := by
+  unfold indexedToChannels at h
+  simp only [Bool.false_eq_true, if_false] at h
+  by_cases hd : i.ihdr.depth = 8
+  · simp only [hd, ne_eq, not_true_eq_false, if_false] at h
+    cases hc : i.ihdr.ct with
+    | indexed p0 =>
+      simp only [hc] at h
+      have hib : i.bppBytes = 1 := by
+        simp [Img.bppBytes, Img.bytesPerChannel, Img.channelsPerPixel, hd, hc, ColorType.channels]
+      have hmem := getD_mem_or p0
+      cases hg : (ag && p0.all fun c => decide (c.r = c.g ∧ c.g = c.b)) <;>
+        cases ha : (p0.any fun c => decide (c.a ≠ 255)) <;>
+        simp only [hg, ha, Bool.false_eq_true, if_false, if_true, List.drop_zero, List.drop_succ_cons,
+          Nat.sub_zero, Nat.reduceSub, List.take_succ_cons, List.take_zero, List.take_nil] at h <;>
+        split at h <;> cases h <;> refine ⟨rfl, rfl, rfl, ?_⟩ <;>
+        simp only [pixelColours, storagePixels, hib, chunksExact_one, List.map_map, hc]
+      all_goals simp only [Img.bppBytes, Img.bytesPerChannel, Img.channelsPerPixel, ColorType.channels,
+        if_neg (by decide : ¬ ((8 : Nat) = 16)), Nat.one_mul]
+      all_goals rw [chunks_flatMap' _ _ (by decide) _ (by intros; rfl), List.map_map]
+      all_goals apply List.map_congr_left
+      all_goals intro b _
+      all_goals simp only [Function.comp, samplesOf, hd, if_neg (by decide : ¬ ((8 : Nat) = 16)),
+        List.map_cons, List.map_nil, colourOf_indexed_getD]
+      · exact entry_rgb _ (opaque_entries p0 ha _)
+      · exact entry_rgba _
+      · exact entry_g _ (gray_entries p0 ag hg _) (opaque_entries p0 ha _)
+      · exact entry_ga _ (gray_entries p0 ag hg _)
+    | gray t => simp [hc] at h
+    | rgb t => simp [hc] at h
+    | grayAlpha => simp [hc] at h
+    | rgba => simp [hc] at h
+  · simp [hd] at h
+
+/-- **Condensing the palette is lossless for the whole image** (no alpha optimisation): unused and
+    duplicate entries are dropped and every index is remapped to an entry of the same colour. -/
+theorem reduced_palette_lossless (i j : Img) (h : reducedPalette i false = some j) : samePicture i j := by
+  unfold reducedPalette at h
+  by_cases hd : i.ihdr.depth = 8
+  · simp only [hd, ne_eq, not_true_eq_false, if_false] at h
+    cases hc : i.ihdr.ct with
+    | indexed palette =>
+      simp only [hc] at h
+      have hu : ((List.range 256).filter fun k => i.data.contains (UInt8.ofNat k)).length ≤ 256 := by
+        have := List.length_filter_le (fun k => i.data.contains (UInt8.ofNat k)) (List.range 256)
+        simpa using this
+      have hmemU := used_mem i.data
+      generalize ((List.range 256).filter fun k => i.data.contains (UInt8.ofNat k)) = U at h hu hmemU
+      obtain ⟨hinv, hlen⟩ := palFold_inv palette U ([], [], false) [] (by intro k hk; cases hk) (by simpa using hu)
+      generalize List.foldl (palStep palette false) ([], [], false) U = st at h hinv hlen
+      have hib : i.bppBytes = 1 := by
+        simp [Img.bppBytes, Img.bytesPerChannel, Img.channelsPerPixel, hd, hc, ColorType.channels]
+      have key : ∀ b ∈ i.data, ∃ idx, st.2.1.lookup b.toNat = some idx ∧
+          st.1[idx]? = some (palette.getD b.toNat blackEntry) ∧ (st.2.2 = false → idx = b.toNat) := by
+        intro b hb
+        exact hinv b.toNat (by simpa using hmemU b hb)
+      cases hch : st.2.2
+      case true =>
+        simp only [hch, if_true, Option.some.injEq] at h
+        subst h
+        refine ⟨rfl, rfl, rfl, ?_⟩
+        simp only [pixelColours, storagePixels, hib, chunksExact_one, List.map_map, hc]
+        have hjb : Img.bppBytes ⟨⟨i.ihdr.width, i.ihdr.height, .indexed st.1, 8, i.ihdr.interlaced⟩,
+            i.data.map fun b => UInt8.ofNat ((st.2.1.lookup b.toNat).getD 0)⟩ = 1 := rfl
+        rw [hjb, chunksExact_one, List.map_map, List.map_map]
+        apply List.map_congr_left
+        intro b hb
+        obtain ⟨idx, h1, h2, _⟩ := key b hb
+        have hlt := lt_of_getElem?_some _ _ _ h2
+        simp only [Function.comp, samplesOf, hd, if_neg (by decide : ¬ ((8 : Nat) = 16)),
+          List.map_cons, List.map_nil, colourOf_indexed_getD]
+        rw [lookup_getD_ofNat _ _ idx h1 (by omega), getD_of_getElem? _ _ _ _ h2]
+      case false =>
+        simp only [hch, Bool.false_eq_true, if_false] at h
+        split at h
+        · simp only [Option.some.injEq] at h
+          subst h
+          refine ⟨rfl, rfl, rfl, ?_⟩
+          simp only [pixelColours, storagePixels, hib, chunksExact_one, List.map_map, hc]
+          have hjb : Img.bppBytes ⟨⟨i.ihdr.width, i.ihdr.height, .indexed st.1, 8, i.ihdr.interlaced⟩, i.data⟩ = 1 := rfl
+          rw [hjb, chunksExact_one, List.map_map]
+          apply List.map_congr_left
+          intro b hb
+          obtain ⟨idx, h1, h2, h3⟩ := key b hb
+          have := h3 hch
+          subst this
+          simp only [Function.comp, samplesOf, hd, if_neg (by decide : ¬ ((8 : Nat) = 16)),
+            List.map_cons, List.map_nil, colourOf_indexed_getD]
+          rw [getD_of_getElem? _ _ _ _ h2]
+        · cases h
+    | gray t => simp [hc] at h
+    | rgb t => simp [hc] at h
+    | grayAlpha => simp [hc] at h
+    | rgba => simp [hc] at h
+  · simp [hd] at h
+
 /-- Non-vacuity: a concrete 16-bit keyed pixel -/
 example : colourOf (.gray (some 0x3434)) 16 [0x34 * 256 + 0x34] = ⟨0x3434, 0x3434, 0x3434, 0⟩ ∧
           colourOf (trns16to8 (.gray (some 0x3434)) exactKey) 8 [0x34] = ⟨0x3434, 0x3434, 0x3434, 0⟩ := by decide
@@ -519,5 +635,11 @@ example : reducedAlphaChannel ⟨⟨1, 2, .rgba, 8, false⟩, [1, 2, 3, 255, 4, 
     some ⟨⟨1, 2, .rgb none, 8, false⟩, [1, 2, 3, 4, 5, 6]⟩ := by decide
 example : reducedToIndexed ⟨⟨3, 1, .rgb (some (4, 5, 6)), 8, false⟩, [1, 2, 3, 4, 5, 6, 1, 2, 3]⟩ true =
     some ⟨⟨3, 1, .indexed [⟨1, 2, 3, 255⟩, ⟨4, 5, 6, 0⟩], 8, false⟩, [0, 1, 0]⟩ := by decide
+
+example : indexedToChannels ⟨⟨2, 1, .indexed [⟨1, 2, 3, 255⟩, ⟨4, 5, 6, 0⟩], 8, false⟩, [1, 0]⟩ true false =
+    some ⟨⟨2, 1, .rgba, 8, false⟩, [4, 5, 6, 0, 1, 2, 3, 255]⟩ := by decide
+
+example : reducedPalette ⟨⟨3, 1, .indexed [⟨9, 9, 9, 255⟩, ⟨1, 2, 3, 255⟩, ⟨1, 2, 3, 255⟩], 8, false⟩, [2, 1, 2]⟩ false =
+    some ⟨⟨3, 1, .indexed [⟨1, 2, 3, 255⟩], 8, false⟩, [0, 0, 0]⟩ := by decide
 
 end OxiModel.C01
